@@ -32,8 +32,8 @@ class Stop(Exception):
 # =========================================================================================
 PROFILES = {
     # name: knobs
-    "accounting": dict(fi=0.0, p_batch=0.25, p_dup=0.08, p_read=0.08, faults=dict(late_listing=0.15, nan_tick=0.15, delisting=0.05), coupon=0.25),
-    "fi": dict(fi=1.0, p_batch=0.2, p_dup=0.08, p_read=0.08, faults=dict(late_listing=0.1), coupon=1.0),
+    "accounting": dict(fi=0.0, p_batch=0.25, p_dup=0.08, p_read=0.08, faults=dict(late_listing=0.15, nan_tick=0.15, delisting=0.05, zero_run=0.12), coupon=0.25),
+    "fi": dict(fi=1.0, p_batch=0.2, p_dup=0.08, p_read=0.08, faults=dict(late_listing=0.1, zero_run=0.2), coupon=1.0),
     "schedule": dict(fi=0.15, p_batch=0.3, p_dup=0.2, p_read=0.25, faults=dict(late_listing=0.1, nan_tick=0.1), coupon=0.3),
     "sizing": dict(fi=0.0, p_batch=0.1, p_dup=0.02, p_read=0.02, faults=dict(nan_tick=0.2, zero_tick=0.1, late_listing=0.1), coupon=0.0, sizing=True),
     "bankrupt": dict(fi=0.0, p_batch=0.1, p_dup=0.05, p_read=0.05, faults={}, coupon=0.0, leverage=True),
@@ -85,9 +85,9 @@ def gen_plan(rng, profile="accounting", tier="quick", knobs=None):
     ops = []
     ticks_left = ndates - 1
     # op mix (swarm): each run enables a random subset of op kinds
-    kinds = ["alloc", "alloc", "alloc", "spread", "rebal", "rebal", "close", "flatten", "transact", "adjust", "adjust"]
+    kinds = ["alloc", "alloc", "alloc", "spread", "rebal", "rebal", "close", "flatten", "transact", "adjust", "adjust", "roundtrip"]
     if fi:
-        kinds = ["transact", "transact", "rebal", "rebal", "close", "flatten", "tspread", "adjust", "alloc"]
+        kinds = ["transact", "transact", "rebal", "rebal", "close", "flatten", "tspread", "adjust", "alloc", "roundtrip"]
     enabled = [x for x in sorted(set(kinds)) if rng.random() < 0.75] or ["alloc"]
     kinds = [x for x in kinds if x in enabled]
     in_batch = False
@@ -145,7 +145,13 @@ def gen_plan(rng, profile="accounting", tier="quick", knobs=None):
             o["direct"] = rng.random() < 0.5
             if not o["direct"]:
                 o["upd"] = True
-            o["custom"] = rng.choice([None, None, None, 1.01, 0.98, 1.0])
+            o["custom"] = rng.choice([None, None, None, 1.01, 0.98, 1.0, 0.0])
+        elif kind == "roundtrip":
+            o["qfrac"] = round(rng.choice([1, -1]) * rng.choice([0.05, 0.2, 0.5]), 4)
+            o["c1"] = rng.choice([None, 1.0, 1.01, 0.99])
+            o["c2"] = rng.choice([None, 1.0, 1.02, 0.97])
+            o["back"] = rng.choice([1.0, 1.0, 1.0, 0.5])
+            o["upd"] = upd
         elif kind == "tspread":
             o["qfrac"] = round(rng.choice([1, -1]) * rng.choice([0.1, 0.5]), 4)
             o["upd"] = upd
@@ -158,7 +164,7 @@ def gen_plan(rng, profile="accounting", tier="quick", knobs=None):
             in_batch = True
         elif "upd" in o or kind == "flatten":
             pass
-        if rng.random() < 0.1 and o.get("upd", True) and kind in ("alloc", "rebal", "close", "transact", "adjust", "spread"):
+        if rng.random() < 0.1 and o.get("upd", True) and kind in ("alloc", "rebal", "close", "transact", "adjust", "spread", "roundtrip"):
             o["fresh"] = [rng.randrange(64), rng.randrange(64), rng.random() < 0.5, rng.randrange(64)]
         ops.append(o)
     if in_batch:
@@ -322,6 +328,8 @@ class TreeSim(taps.Sim):
     def on_root_update_exit(self, date):
         if self.depth_update:
             return
+        if getattr(self, "engine", False):
+            self.in_batch = False  # a completed root update has delivered every pending change
         root = self.root
         v = self._upd_val
         if v != v:
@@ -727,8 +735,10 @@ class TreeSim(taps.Sim):
             for s in m.secs() if self.cfg.get("ill") != "nan_open" else ():
                 if not isz(s.pos):
                     p = self.feed.price(nt, s.name)
-                    if not (p == p and p > 0):
+                    if not (p == p and p >= 0):
                         raise Stop("next_tick_bad_price")
+                    if p == 0:
+                        self.fire("held_at_zero_price")
                     if s.cls in ("CouponPayingSecurity", "CouponPayingHedgeSecurity"):
                         c = self.feed.get("coupons", nt, s.name)
                         if c != c:
@@ -818,6 +828,8 @@ class TreeSim(taps.Sim):
                 done = True
             elif kind == "transact":
                 done = self.op_transact(o, p, node, cs)
+            elif kind == "roundtrip":
+                done = self.op_roundtrip(o, p, node, cs)
             elif kind == "tspread":
                 if not node.fixed_income:
                     return
@@ -970,12 +982,16 @@ class TreeSim(taps.Sim):
             return False
         cname = cs["name"]
         price = self.feed.price(self.model.t, cname)
-        if not (price == price and price > 0):
+        if not (price == price and price >= 0):
             return False
         mult = cs["mult"]
         ref = abs(self.mvalue(p)) or (self.cfg["capital"] or 1e5)
-        if node.fixed_income:
+        if node.fixed_income and price != 0:
             q = o["qfrac"] * 1000.0
+        elif price == 0:
+            # (transact has no price guard: a quantity can change hands at a zero price, e.g. a swap entered at PV 0)
+            q = o["qfrac"] * ref / 100.0
+            self.fire("trade_at_zero_price")
         else:
             q = o["qfrac"] * ref / (price * mult)
         if self.cfg["integer"]:
@@ -1008,6 +1024,33 @@ class TreeSim(taps.Sim):
         else:
             o["upd"] = True
             self.guarded(lambda: node.transact(q, child=cname), "transact")
+        return True
+
+    def op_roundtrip(self, o, p, node, cs):
+        """buy then sell (or the reverse) the same quantity of one security on one date, nothing refreshed in between"""
+        if cs["k"] == "S":
+            return False
+        cname = cs["name"]
+        price = self.feed.price(self.model.t, cname)
+        if not (price == price and price > 0) or cname not in node.children:
+            return False
+        c = node.children[cname]
+        ref = abs(self.mvalue(p)) or (self.cfg["capital"] or 1e5)
+        q = o["qfrac"] * (1000.0 if node.fixed_income else ref / (price * cs["mult"]))
+        if self.cfg["integer"]:
+            q = float(round(q))
+        if isz(q):
+            return False
+        has_bo = self.feed.has("bidoffer")
+        p1 = round(price * o["c1"], 6) if (has_bo and o.get("c1")) else None
+        p2 = round(price * o["c2"], 6) if (has_bo and o.get("c2")) else None
+        self.fire("roundtrip")
+
+        def go():
+            c.transact(q, update=False, price=p1)
+            c.transact(-q * o.get("back", 1.0), update=o["upd"], price=p2)
+
+        self.guarded(go, "roundtrip")
         return True
 
     def do_read(self, o):
